@@ -19,7 +19,7 @@ RULE = ("the pipelines, outputs and argument combinations of C02 (G-DAG N<=2 dec
         "with and without an active construct_dag() (and, once per pipeline, right after a construct_dag() block that was left through an exception, and with list-valued inputs rendered type-strictly), evaluate() called three times, and every ordered pair of requested outputs "
         "evaluated in both orders on one lazy pipeline - as two plain requests, inside ONE construct_dag() block, and with cache=True on every function. Plus: lazy results inside list/tuple/set arguments in one dag block, and a function OWNED by a lazy pipeline (built from PipeFuncs / from plain callables) called directly with a deferred argument; a deferred result made before (or in an earlier) construct_dag() block and consumed inside one; a deferred result evaluated after its pipeline was garbage-collected. non-trivial = distinct (pipeline, output, cut, mode) with >= 2 functions on the dependency path")
 ASSUMPTIONS = c02.ASSUMPTIONS + ["task-graph nodes whose func is not a PipeFunc are output pickers and are contracted"]
-BUDGET = {"quick": 110.0, "thorough": 900.0}
+BUDGET = {"quick": 200.0, "thorough": 1500.0}
 
 
 class _Abort(Exception):
